@@ -213,6 +213,11 @@ def gen_op(rng, w):
     names = w.sorted_names()
     dense = w.sorted_names(sparse=False)
     if not names or (len(names) < 2 and rng.random() < 0.6) or (len(names) < 6 and rng.random() < 0.07):
+        if rng.random() < 0.05:
+            # now and then a matrix that does not fit one I/O block or one copy chunk (values stay small integers)
+            tc_ = rng.choice(['i', 'd', 'z'])
+            m_, n_ = rng.choice([(33, 32), (1025, 1), (1, 1500), (40, 30)])
+            return ['new', w.fresh(), {'k': 'dense', 'm': m_, 'n': n_, 'tc': tc_, 'v': [DNS.mkval(tc_, rng) for _ in range(m_ * n_)]}]
         if rng.random() < 0.7:
             spec = DNS.gen_dense(rng)
             if rng.random() < 0.25 and spec['v']:
